@@ -224,9 +224,60 @@ type soakGen struct {
 	running  map[uint64]bool
 	maxStart uint64
 	fam      map[string]bool
+	// scheduler gap: operations left until the goroutines parked behind ScheduleJob continue
+	gapLeft  int
+	gapSlots map[uint64]bool // slots whose job was set up by a parked goroutine
 }
 
-func (g *soakGen) add(o Op) { g.ops = append(g.ops, o) }
+// a slot number that never has a duty: `finish` of it does nothing in the code and in the model; it
+// carries the release of the parked goroutines so that the state right after is observed
+const noSuchSlot = uint64(1) << 40
+
+func (g *soakGen) add(o Op) {
+	if g.gapLeft > 0 {
+		// what happens while the scheduling goroutines are parked
+		switch o.K {
+		case "start":
+			if g.gapSlots[o.S] {
+				g.fam["gap-job-started"] = true
+			}
+		case "finish":
+			if g.gapSlots[o.S] {
+				g.fam["gap-job-finished"] = true
+			}
+		case "refresh":
+			for s := range g.gapSlots {
+				if s/g.spe == o.E {
+					g.fam["gap-job-cancelled"] = true
+				}
+			}
+		}
+	}
+	g.ops = append(g.ops, o)
+	if g.gapLeft > 0 && !o.Hold {
+		g.gapLeft--
+		if g.gapLeft == 0 {
+			g.ops = append(g.ops, Op{K: "finish", S: noSuchSlot, Rel: true})
+			g.gapSlots = map[uint64]bool{}
+		}
+	}
+}
+
+// openGap: the goroutines of the scheduling operation about to be added lose the processor behind
+// ScheduleJob for the next few operations.
+func (g *soakGen) openGap(o *Op, slots []uint64) {
+	o.Hold = true
+	if g.gapLeft == 0 {
+		g.gapLeft = g.r.Range(1, 6)
+	}
+	if g.gapSlots == nil {
+		g.gapSlots = map[uint64]bool{}
+	}
+	for _, s := range slots {
+		g.gapSlots[s] = true
+	}
+	g.fam["scheduler-gap"] = true
+}
 
 func (g *soakGen) epochSlots(e uint64, from uint64, density int) []uint64 {
 	var out []uint64
@@ -247,7 +298,11 @@ func (g *soakGen) sched(cur uint64, notcur bool, slots []uint64) {
 		}
 		keep = append(keep, s)
 	}
-	g.add(Op{K: "sched", Cur: cur, NotCur: notcur, Slots: keep})
+	o := Op{K: "sched", Cur: cur, NotCur: notcur, Slots: keep}
+	if len(keep) > 0 && g.r.Chance(1, 3) {
+		g.openGap(&o, keep)
+	}
+	g.add(o)
 	for _, s := range keep {
 		if s > cur || (s == cur && !notcur) {
 			g.jobs[s] = true
@@ -283,9 +338,18 @@ func genSoak(r *Rand, epochs int, spe uint64) (SoakInput, []string) {
 	for k := 0; k < epochs; k++ {
 		e := startEpoch + uint64(k)
 		first := e * spe
-		for s := first; s < first+spe; s++ {
+		prep := first
+		if k == 0 && r.Chance(1, 3) {
+			// vouch started part-way through the epoch: the duties of what is left of it, the current
+			// slot's included (its job is overdue when more than the attestation delay has passed)
+			prep = first + uint64(r.Range(0, int(spe)-1))
+			if prep > first {
+				g.fam["late-start-up"] = true
+			}
+		}
+		for s := prep; s < first+spe; s++ {
 			cur := s
-			if s == first {
+			if s == prep {
 				// epoch preparation: subscriptions for the next epoch, attestations of this one
 				g.add(Op{K: "subscribe", Cur: cur, E: e + 1, OK: !r.Chance(1, 12)})
 				if k == 0 {
@@ -341,6 +405,14 @@ func genSoak(r *Rand, epochs int, spe uint64) (SoakInput, []string) {
 						}
 					}
 					g.fam["reorg-rescheduled"] = true
+					if len(o.Slots) > 0 && r.Chance(1, 2) {
+						// the rescheduled jobs (the current slot's is overdue) are in the table
+						// before the scheduling goroutines continue
+						g.openGap(&o, o.Slots)
+						if hadJob && o.Slots[0] == cur {
+							g.fam["gap-overdue-current-slot"] = true
+						}
+					}
 				} else {
 					g.fam["reorg-without-accounts"] = true
 				}
@@ -415,6 +487,10 @@ func genSoak(r *Rand, epochs int, spe uint64) (SoakInput, []string) {
 	}
 	for _, x := range pendingFinish {
 		g.add(Op{K: "finish", S: x, OK: true})
+	}
+	if g.gapLeft > 0 {
+		g.gapLeft = 0
+		g.add(Op{K: "finish", S: noSuchSlot, Rel: true})
 	}
 	tags := []string{"soak"}
 	for f := range g.fam {
